@@ -75,6 +75,7 @@ func init() {
 			pf := newPatchFamily(w, v2, "v2")
 			safely(r, "ruleFWD", func() { ruleFWD(w, r, pf, []string{"pathAhead", "oldValues", "newValues", "strategy"}) })
 			ruleOptFwd(w, r, v2, "v2", "Option", func(fn *ssa.Function) bool { return patchSide(fn) || equalsSide(fn) || diffSide(fn) }, nil)
+			safely(r, "ruleHunkRaw", func() { ruleHunkRaw(w, r, v2, "v2") })
 			safely(r, "ruleCursor", func() { ruleCursor(w, r, v2, "v2") })
 			safely(r, "rulePathFresh", func() { rulePathFresh(w, r, v2, "v2") })
 			safely(r, "ruleKinds", func() { ruleKinds(w, r, v2) })
@@ -85,6 +86,7 @@ func init() {
 			safely(r, "ruleDeleteVoid", func() { ruleDeleteVoid(w, r, pf) })
 			safely(r, "ruleValuesFresh", func() { ruleValuesFresh(w, r, v2, "v2", "Before", "Remove", "Add", "After") })
 			safely(r, "ruleIdentProv", func() { ruleIdentProv(w, r, v2, "v2") })
+			safely(r, "ruleIdentBinds", func() { ruleIdentBinds(w, r, v2, "v2") })
 			safely(r, "ruleKeyBind", func() { ruleKeyBind(w, r, pf) })
 			safely(r, "ruleSearchAll", func() { ruleSearchAll(w, r, pf, setModePatch) })
 			safely(r, "ruleChildResult", func() { ruleChildResult(w, r, pf) })
@@ -262,6 +264,7 @@ func init() {
 		Assumptions: commonAssumptions,
 		Run: func(w *World, r *Report) {
 			v2 := w.Pkg(pathV2)
+			safely(r, "ruleIdentBinds", func() { ruleIdentBinds(w, r, v2, "v2") })
 			nt := newNodeTypes(w, v2, "v2")
 			safely(r, "ruleOptFwd", func() { ruleOptFwd(w, r, v2, "v2", "Option", diffSide, nil) })
 			safely(r, "ruleNodeCompare", func() { ruleNodeCompare(w, r, nt) })
@@ -301,6 +304,7 @@ func init() {
 			safely(r, "ruleKinds", func() { ruleKinds(w, r, v2) })
 			safely(r, "ruleIdentUse", func() { ruleIdentUse(w, r, v2, "v2") })
 			safely(r, "ruleIdentProv", func() { ruleIdentProv(w, r, v2, "v2") })
+			safely(r, "ruleIdentBinds", func() { ruleIdentBinds(w, r, v2, "v2") })
 			safely(r, "ruleSearchAll", func() { ruleSearchAll(w, r, pf, setModePatch) })
 			safely(r, "ruleKeyBind", func() { ruleKeyBind(w, r, pf) })
 			safely(r, "ruleArrayDispatch", func() { ruleArrayDispatch(w, r, v2, "v2", "patch") })
